@@ -274,6 +274,7 @@ def run(ctx):
     shared.control_keys_cover_rule(ctx, 'C12.o', floor=4)
     _terminal_queries_use_mapped_circuit(ctx, repo)
     _unitary_fast_path_arity(ctx, repo)
+    _rescoping_by_interpretation(ctx, repo)
     ctx.decided.append('C12.o _control_keys_ of every wrapping operation covers the children whose keys the class rewrites')
 
     # ------------------------------------------------------------------ C12.g
@@ -762,3 +763,119 @@ def _unitary_fast_path_arity(ctx, repo):
     ctx.ob('C12.q', f'{ci.qual}._unitary_:factor-dimensions', ok, '' if ok else
            f'the matrices in `{mats}` are multiplied as they come: a global phase operation in the body is 1x1 and the product with a 2x2 matrix raises, although has_unitary(op) is True '
            'and the unrolled circuit has a unitary', ci.mod.rel, fn.lineno)
+
+
+def _rescoping_by_interpretation(ctx, repo):
+    """C12.r - what a moment / sub-circuit may bind to while keys are re-scoped: only what was measured before it, in an enclosing scope."""
+    from .. import fdx
+    ctx.decided.append('C12.r AbstractCircuit._with_rescoped_keys_ hands each moment the keys measured in earlier moments only (never those of later ones), and '
+                       'CircuitOperation._with_rescoped_keys_ keeps of the enclosing keys those whose path is no longer than the path of the enclosing scope and records '
+                       'path + parent_path as its new parent path (both interpreted on model keys)')
+    ctx.rule('C12.r', 'binding follows program order and scope: interpreting AbstractCircuit._with_rescoped_keys_ on three model moments, the bindable keys given to moment i are the initial '
+             'ones plus the (re-scoped) keys of moments 0..i-1; interpreting CircuitOperation._with_rescoped_keys_ on model key sets, extern_keys = {k in bindable: len(k.path) <= '
+             'len(path)} + the re-prefixed old extern keys and parent_path = path + self.parent_path - a control otherwise binds to a later measurement of the same name, or to the '
+             'key of a finished sibling sub-circuit', floor=8, style='FDX')
+
+    class K:
+        def __init__(self, path, name):
+            self.path, self.name = tuple(path), name
+
+        def with_key_path_prefix(self, *p):
+            return K(tuple(p) + self.path, self.name)
+
+        def __eq__(self, o):
+            return isinstance(o, K) and (self.path, self.name) == (o.path, o.name)
+
+        def __hash__(self):
+            return hash((self.path, self.name))
+
+        def __repr__(self):
+            return ':'.join(self.path + (self.name,))
+
+    class M:
+        def __init__(self, keys):
+            self.keys = frozenset(keys)
+
+    def common_attr(node, it):
+        try:
+            v = it.ev(node.value)
+        except fdx.Unsupported:
+            return NotImplemented
+        if isinstance(v, K) and node.attr in ('path', 'name', 'with_key_path_prefix'):
+            return getattr(v, node.attr)
+        return NotImplemented
+    # ---- AbstractCircuit
+    ac = repo.cls('cirq.circuits.circuit.AbstractCircuit')
+    fn = ac.methods.get('_with_rescoped_keys_')
+    if fn is None:
+        raise AnalysisError('AbstractCircuit._with_rescoped_keys_ vanished')
+    for path in (('r',), ('r', 's'), ()):
+        moments = [M([K((), 'a')]), M([]), M([K((), 'a'), K((), 'b')])]
+        init = frozenset([K((), 'x')])
+        seen = []
+
+        def call_hook(call, it, path=path, seen=seen, moments=moments):
+            s_ = ast.unparse(call.func)
+            last = s_.split('.')[-1]
+            if last == 'with_rescoped_keys':
+                m_ = it.ev(call.args[0])
+                b_ = frozenset(it.ev(call.args[2]))
+                seen.append((m_, b_))
+                return M([k.with_key_path_prefix(*it.ev(call.args[1])) for k in m_.keys])
+            if last == 'measurement_key_objs':
+                v = it.ev(call.args[0])
+                return frozenset(v.keys) if isinstance(v, M) else frozenset()
+            if last in ('all_measurement_key_objs', '_all_measurement_key_objs'):
+                return frozenset(k for m_ in moments for k in m_.keys)
+            if last == '_from_moments':
+                return list(it.ev(call.args[0]))
+            return NotImplemented
+        params = [a.arg for a in fn.args.args]
+        it = fdx.NumInterp({params[0]: {'moments': moments, '_moments': moments, 'tags': ()}, params[1]: path, params[2]: init}, call_hook=call_hook, attr_hook=common_attr)
+        it.builtins.update({'frozenset': frozenset})
+        try:
+            it.call(fn)
+        except (fdx.Unsupported, fdx.Raised) as ex:
+            raise AnalysisError(f'AbstractCircuit._with_rescoped_keys_ is outside the interpretable subset: {ex}')
+        by_m = {id(m_): b_ for m_, b_ in seen}
+        for i, m_ in enumerate(moments):
+            want = set(init)
+            for e in moments[:i]:
+                want |= {k.with_key_path_prefix(*path) for k in e.keys}
+            got = by_m.get(id(m_))
+            ok = got is not None and set(got) == want
+            ctx.ob('C12.r', f'{ac.qual}._with_rescoped_keys_:path={path}:moment{i}', ok, '' if ok else
+                   f'moment {i} is re-scoped with bindable keys {sorted(map(repr, got or []))}, expected {sorted(map(repr, want))}: keys measured in the same or a later moment must not be '
+                   'offered (a control would bind to a measurement that has not happened yet)', ac.mod.rel, fn.lineno, construct=f'{ac.qual}._with_rescoped_keys_')
+    # ---- CircuitOperation
+    co = repo.cls('cirq.circuits.circuit_operation.CircuitOperation')
+    fn2 = co.methods.get('_with_rescoped_keys_')
+    if fn2 is None:
+        raise AnalysisError('CircuitOperation._with_rescoped_keys_ vanished')
+    for path, parent in ((('r',), ('p',)), (('r',), ()), ((), ('p', 'q')), (('r', 's'), ('p',))):
+        bindable = frozenset([K((), 'a'), K(('r',), 'a'), K(('r', 'p'), 'a'), K(('r', 's', 't'), 'b'), K(('z',), 'c')])
+        extern = frozenset([K((), 'e')])
+        got = {}
+
+        def call_hook2(call, it, got=got):
+            s_ = ast.unparse(call.func)
+            if s_.endswith('.replace') or s_ == 'replace':
+                for k_ in call.keywords:
+                    got[k_.arg] = it.ev(k_.value)
+                return 'OP'
+            return NotImplemented
+        params = [a.arg for a in fn2.args.args]
+        it = fdx.NumInterp({params[0]: {'parent_path': parent, '_parent_path': parent, '_extern_keys': extern, 'extern_keys': extern}, params[1]: path, params[2]: bindable},
+                           call_hook=call_hook2, attr_hook=common_attr)
+        it.builtins.update({'frozenset': frozenset})
+        try:
+            it.call(fn2)
+        except (fdx.Unsupported, fdx.Raised) as ex:
+            raise AnalysisError(f'CircuitOperation._with_rescoped_keys_ is outside the interpretable subset: {ex}')
+        want_keys = {k for k in bindable if len(k.path) <= len(path)} | {k.with_key_path_prefix(*path) for k in extern}
+        ok1 = tuple(got.get('parent_path', ())) == tuple(path) + tuple(parent)
+        ok2 = set(got.get('extern_keys', ())) == want_keys
+        ctx.ob('C12.r', f'{co.qual}._with_rescoped_keys_:path={path}:parent={parent}', ok1 and ok2, '' if (ok1 and ok2) else
+               (f'parent_path becomes {got.get("parent_path")} (expected {tuple(path) + tuple(parent)})' if not ok1 else
+                f'extern keys become {sorted(map(repr, got.get("extern_keys", ())))}, expected {sorted(map(repr, want_keys))}: keys of scopes deeper than the enclosing one belong to '
+                'finished sibling sub-circuits and must not be bindable'), co.mod.rel, fn2.lineno, construct=f'{co.qual}._with_rescoped_keys_')
